@@ -311,6 +311,49 @@ def suite_seq_refine(which):
     return suite
 
 
+def gen_tiny_long(seed, n):
+    """long histories of single-row insertions over 2..4 bits with branching factors 2..4 and criteria that
+    never or hardly ever merge: many entries with EQUAL per-bit sums and centroids (different subtrees
+    holding the same columns, duplicate and all-zero rows), deep trees, frequent splits"""
+    rng = random.Random(seed + 61)
+    hs = []
+    for _ in range(n):
+        nf = rng.choice([2, 3, 4])
+        crit, thr = rng.choice([("never-merge", 0.5), ("never-merge", 0.5), ("diameter", 1.0), ("radius", 0.9)])
+        cfg = {"crit": crit, "tol": 0.05 if crit == "never-merge" else None, "thr": thr, "bf": rng.choice([2, 3, 4])}
+        pz = rng.choice([0.0, 0.1])
+        ops = []
+        for _k in range(rng.randint(13, 30)):
+            row = [0] * nf if rng.random() < pz else [rng.randint(0, 1) for _ in range(nf)]
+            ops.append({"op": "fit", "rows": [row], "labels": None, "form": "unpacked-array", "bad_at": None})
+        hs.append({"cfg": cfg, "nf": nf, "ops": ops})
+    return hs
+
+
+def suite_tiny_long(which):
+    """direct oracle `which` after every single insertion of the tiny-width long histories (no model term)"""
+    def suite(seed, tier):
+        hs = gen_tiny_long(seed, 2000 if tier == "quick" else 30000)
+        res = Result("tiny-long")
+        for h in hs:
+            try:
+                v = oracles_hist.run_with_oracle(h, which)
+            except Exception as e:
+                v = (-1, f"oracle could not run: {type(e).__name__}: {e}"[:300])
+            if v:
+                hh = dict(h)
+                if v[0] >= 0:
+                    hh["ops"] = h["ops"][:v[0] + 1]
+                res.bad.append({"suite": "tiny-long", "what": v[1], "history": hh, "after_op": v[0]})
+        res.cases = len(hs)
+        res.nontrivial = len(hs)
+        res.stats = {"histories": len(hs), "insertions": sum(len(h["ops"]) for h in hs), "oracle": which}
+        res.samples = [{"cfg": hs[0]["cfg"], "nf": hs[0]["nf"], "insertions": len(hs[0]["ops"])}]
+        return res
+    suite.__name__ = f"suite_tiny_long_{which}"
+    return suite
+
+
 # ---------------------------------------------------------------- search on break
 def search_hist(which):
     """search function for property `which` (a key of oracles_hist.ORACLES)"""
@@ -321,6 +364,8 @@ def search_hist(which):
                 cands.append(d["history"])
         cands += gen_exact_boundary(seed + 1, "thorough") + gen_merge_boundary(seed + 1, "thorough") \
             + gen_switch(seed + 1, 150) + gen_refine_twice(seed + 1, 120) + gen_seq_refine(seed + 1, 150)
+        if which == "C08":
+            cands += gen_tiny_long(seed + 1, 3000)
         cands += gen_boundary(seed + 1, "quick")
         cands += gen_histories(seed + 1, 150 if tier == "quick" else 1500, max_ops=10, max_rows=24)
         for h in cands:
